@@ -280,19 +280,14 @@ def check_merge_dispatch(ctx: Ctx):
     if len(calls) != 2:
         ctx.violate("SIBLING", site, fi, f"expected the in-place and the copy branch to call self._merge_data once each; found {len(calls)} call(s)")
         return
-    from ..astutil import stmt_index
+    from ..astutil import stmt_index, symbolic_paths, truth_of, value_cases
 
     si = stmt_index(fv)
     branch = {}
     for c in calls:
-        g = si.guards(c)
-        pol = None
-        for test, p in g:
-            if isinstance(test, ast.Name) and test.id == "inplace":
-                pol = p
-            elif isinstance(test, ast.UnaryOp) and isinstance(test.op, ast.Not) and isinstance(test.operand, ast.Name) and test.operand.id == "inplace":
-                pol = not p
-        branch[pol] = c
+        pols = {truth_of(dec, "inplace") for dec, _ in symbolic_paths(fv, c, [c.args[0]])}
+        if len(pols) == 1:
+            branch[pols.pop()] = c
     if set(branch) != {True, False}:
         ctx.violate("SIBLING", site, fi, "the two kernel calls are not the two arms of the `inplace` test")
         return
@@ -304,7 +299,7 @@ def check_merge_dispatch(ctx: Ctx):
     # in-place: out is self.data, returns self
     oa = arg_or_kw(a, 2, "out")
     rets = [n.stmt for n in fv.return_nodes()]
-    ret_in = [r for r in rets if any(t is not None for t in [1]) and any((isinstance(t, ast.Name) and t.id == "inplace" and p) for t, p in si.guards(r))]
+    ret_in = [r for r in rets if {truth_of(dec, "inplace") for dec, _ in symbolic_paths(fv, r, [r.value])} == {True}]
     ok = oa is not None and U(oa) == "self.data" and len(ret_in) == 1 and U(ret_in[0].value) == "self"
     ctx.decide(ok, "SIBLING", site + ":inplace", (fi, a), "in-place branch writes into self.data and returns self",
                f"in-place branch: out={U(oa) if oa is not None else None}")
